@@ -498,7 +498,7 @@ func c03(args []string) int {
 				jobs = append(jobs, job{k, v})
 			}
 		}
-		var idx atomic.Int64
+		var idx, ran atomic.Int64
 		var wg sync.WaitGroup
 		var capped atomic.Bool
 		for w := 0; w < 16; w++ {
@@ -517,6 +517,7 @@ func c03(args []string) int {
 					j := jobs[i]
 					kr := e3RunKill(sc, j.k, j.v, "")
 					atomic.AddInt64(&evals, 1)
+					ran.Add(1)
 					if kr.Harness != nil {
 						omu.Lock()
 						harnessErr = kr.Harness
@@ -559,10 +560,7 @@ func c03(args []string) int {
 			}()
 		}
 		wg.Wait()
-		done := int(idx.Load())
-		if done > len(jobs) {
-			done = len(jobs)
-		}
+		done := int(ran.Load()) // kill runs actually performed (a job fetched after the deadline is not one)
 		r.KillPoints = done
 		r.Exhaustive = !capped.Load()
 		if capped.Load() {
